@@ -11,6 +11,10 @@ CLAIMED = {
   "Contract proof over the real SSA: the four getCacheTTL functions are proved against postconditions taken from the property (0 <= ttl, configured 0 disables, ttl <= configured, ttl <= remaining lifetime minus leeway), and every call of cache.Cache.Set in heimdall is proved to pass ttl > 0 (call-site precondition of the interface contract). All inputs, unbounded.",
   "Trusted: specs of package time (ghost clock), cachecontrol/ttlcache/redis behaviour, effect-free list; integers mathematical (no overflow obligation on the seconds->Duration multiplication); expiry enforcement inside ttlcache/redis is assumed.",
   "contract-based deductive verification (govc VC generation over go/ssa, z3/cvc5)", "DESIGN.md §6 C10"),
+ "C14": ("proof",
+  "Contract proof of ruleFactory.CreateRule / initWithDefaultRule / NewRuleFactory over the real SSA: for every stage (authentication, authorization/contextualization, finalization, error handling) the effective pipeline is the rule's own (the logged result of the pipeline builders) when non-empty, else the default rule's, else empty; backtracking is the rule's own setting, else the default rule's, else off; a rule without authenticator, or without forward_to in proxy mode, is rejected; default slash handling is off. All default rules x all rule definitions, unbounded.",
+  "Not yet under contract: the ordering automaton inside createExecutePipeline (authenticators, then authorizers/contextualizers, then finalizers) and unknown-mechanism errors; the own-setting clause with a default rule present relies on the cell-heap immutability analysis. Trusted: effect-free list, factory fields init-only (checked by whole-program scan).",
+  "contract-based deductive verification (govc VC generation over go/ssa, z3/cvc5)", "DESIGN.md §6 C14"),
 }
 NOT_APPLICABLE = {
  "C20": "no contract within reach expresses or decides it: the behaviour lives in reflection-driven third-party code (koanf, mapstructure, yaml, jsonschema) and recursive any-typed merges; see DESIGN.md §6 C20",
